@@ -406,6 +406,7 @@ fn gen_chain(rng: &mut Rng, tech: &str, arch: &str, os: &str) -> Option<String> 
         mods: world.mods,
         syms: world.syms,
         symraw: vec![],
+        be: false,
     };
     Some(case.render())
 }
@@ -1176,6 +1177,7 @@ fn gen_mixed(rng: &mut Rng, tech: &str, arch: &str, os: &str) -> Option<String> 
         mods: world.mods,
         syms: world.syms,
         symraw: vec![],
+        be: false,
     };
     Some(case.render())
 }
